@@ -54,9 +54,31 @@ std::string baseConfig() {
 
 // content kinds: "valid" (targets base `b`, marker id), "invalid" (not JSON),
 // "partial" (prefix of a valid document), "nocompile" (unknown target),
-// "baddelay" (compile used to throw)
+// "baddelay" (compile used to throw), "wrongshape" (well-formed JSON with a
+// value of the wrong type at position `shape`: jsoncpp raises Json::LogicError,
+// which is not a std::runtime_error)
 std::string content(const Json::Value& w) {
   std::string kind = w["kind"].asString();
+  if (kind == "wrongshape") {
+    std::string base = "b" + std::to_string(w.get("base", 0).asInt());
+    std::string det = "[[\"g\",{\"name\":\"vp_detector\",\"args\":{\"id\":\"" + w.get("marker", "m").asString() + "\"}}]]";
+    switch (w.get("shape", 0).asInt()) {
+      case 0:
+        return "[1,2,3]";
+      case 1:
+        return "{\"rulesets\":[3]}";
+      case 2:
+        return "{\"rulesets\":[{\"name\":{\"x\":1},\"detectors\":" + det + "}]}";
+      case 3:
+        return "{\"rulesets\":[{\"name\":\"" + base + "\",\"drop-in\":\"yes\",\"detectors\":" + det + "}]}";
+      case 4:
+        return "{\"rulesets\":[{\"name\":\"" + base + "\",\"silence-logs\":[\"engine\"],\"detectors\":" + det + "}]}";
+      case 5:
+        return "{\"rulesets\":[{\"name\":\"" + base + "\",\"post_action_delay\":{\"a\":1},\"detectors\":" + det + "}]}";
+      default:
+        return "{\"rulesets\":[{\"name\":\"" + base + "\",\"detectors\":[[\"g\",5]]}]}";
+    }
+  }
   Json::Value cfg(Json::objectValue);
   Json::Value r(Json::objectValue);
   r["name"] = kind == "nocompile" ? "no_such_ruleset" : "b" + std::to_string(w.get("base", 0).asInt());
@@ -77,8 +99,9 @@ std::string content(const Json::Value& w) {
 
 Json::Value genWrite(int& serial, const std::string& name) {
   Json::Value w(Json::objectValue);
-  int k = W({60, 12, 10, 10, 8});
-  w["kind"] = k == 0 ? "valid" : k == 1 ? "invalid" : k == 2 ? "partial" : k == 3 ? "nocompile" : "baddelay";
+  int k = W({56, 9, 9, 9, 7, 10});
+  w["kind"] = k == 0 ? "valid" : k == 1 ? "invalid" : k == 2 ? "partial" : k == 3 ? "nocompile" : k == 4 ? "baddelay" : "wrongshape";
+  if (k == 5) w["shape"] = R(0, 6);
   w["base"] = R(0, kBases - 1);
   w["marker"] = name + "_v" + std::to_string(serial++);
   w["pieces"] = W({60, 25, 15}) + 1;
@@ -188,13 +211,14 @@ Verdict run(const Json::Value& c) {
   std::map<std::string, FileModel> model;
   long stamp = 0;
   bool recreated = false;
-  bool sawRewriteOfActive = false;
+  bool sawRewriteOfActive = false, sawWrongShape = false;
   int eventsSinceTick = 0, maxEventsBetweenTicks = 0;
   auto applyWrite = [&](const Json::Value& w, const std::string& name) {
     FileModel& f = model[name];
     if (f.present && f.valid) sawRewriteOfActive = true;
     f.present = true;
     f.valid = w["kind"].asString() == "valid";
+    if (w["kind"].asString() == "wrongshape") sawWrongShape = true;
     f.base = w["base"].asInt();
     f.marker = w["marker"].asString();
     f.stamp = ++stamp;
@@ -399,6 +423,7 @@ Verdict run(const Json::Value& c) {
   g.active = false;
   if ((sawRewriteOfActive && recreated) || maxEventsBetweenTicks >= 3) v.nontrivial = true;
   if (recreated) v.labels.push_back("dir_recreated");
+  if (sawWrongShape) v.labels.push_back("wrong_shape_json");
   if (sawRewriteOfActive) v.labels.push_back("rewrite_of_active");
   if (c.isMember("preexisting")) v.labels.push_back("preexisting_files");
   return v;
